@@ -158,6 +158,8 @@ def check_single_(line, hout, dout, stats, notes):
         for fl in ("deco=1", "move=1", "massign=1", "degen=1"):
             if fl in flags:
                 stats[fl] = stats.get(fl, 0) + 1
+        if any(f.startswith("pre=") for f in flags):
+            stats["pre"] = stats.get("pre", 0) + 1
         if same not in ("same", "alias"):
             bad.append(("%s:input-modified" % cls, where + "the predicted belief passed in was modified"))
         if cls == "glik":
@@ -288,6 +290,10 @@ def exhaustive_cases(g, variants):
                 # ... behind a forwarding decorator, on a move-constructed object, and with scalar sizes
                 cases.append((mkline(cls, r.randint(0, 99999), n, m, k, sb, sc) + " deco=1" + ("" if cls == "glik" else " move=1"), {"style": "exhaustive-handover", "cls": cls}))
                 cases.append((mkline(cls, r.randint(0, 99999), n, m, max(k, 3), sb, sc) + " degen=1", {"style": "exhaustive-degenerate-belief", "cls": cls}))
+                if cls != "glik":
+                    # output container holding a partial copy of the predicted belief (re-used buffer): every mode in turn
+                    pm = len(cases) % (4 if cls in ("kf", "ukfa", "ukfg", "ukfgo", "sukf") else 6)
+                    cases.append((mkline(cls, r.randint(0, 99999), n, m, k, sb, sc) + " pre=%d" % pm, {"style": "exhaustive-stale-output", "cls": cls}))
                 if msub is None:
                     n1, m1, k1 = sizes(r, "scalar")
                     cases.append((mkline(cls, r.randint(0, 99999), n1, m1, k1, 1, sc), {"style": "exhaustive-scalar", "cls": cls}))
@@ -365,6 +371,8 @@ def random_cases(g, count):
             ln += " deco=1"
         if not cls.startswith("sis-") and r.random() < 0.2:
             ln += " degen=1"
+        if cls != "glik" and not cls.startswith("sis-") and r.random() < 0.25:
+            ln += " pre=%d" % r.randint(0, 3 if cls in ("kf", "ukfa", "ukfg", "ukfgo", "sukf") else 5)
         if cls != "glik" and not cls.startswith("sis-") and r.random() < 0.2:
             ln += " move=1"
         cases.append((ln, {"style": "random", "cls": cls}))
@@ -512,6 +520,7 @@ def run(ctx):
         "in_place_calls_checked": stats.get("in_place_calls", 0),
         "calls_behind_forwarding_decorator": stats.get("deco=1", 0), "calls_on_move_constructed_objects": stats.get("move=1", 0),
         "calls_on_move_assigned_objects": stats.get("massign=1", 0), "calls_on_degenerate_beliefs": stats.get("degen=1", 0),
+        "calls_into_outputs_holding_partial_copies": stats.get("pre", 0),
         "model_branch_hits": dict(sorted(stats.get("branches", {}).items())),
         "property_failures_on_impl": len(prop_bad),
         "property_failures_by_key": {k: sum(1 for x in prop_bad if x[0] == k) for k in sorted(set(x[0] for x in prop_bad))},
